@@ -129,6 +129,7 @@ Definition site_of (n : N) : site := if n =? 0 then SiteDeny else if n =? 1 then
 
 Record ucase := {
   uc_site : N;                        (* 0 deny-domains, 1 direct-domains, 2 mitm-domains *)
+  uc_started : bool;                  (* the binary came up with this list (given by flags, environment or config file) *)
   uc_entries : list (bool * rx);      (* the list given on the command line: exclude?, rule *)
   uc_obs : list (str * list (list bool) * bool)
   (* bare target host name; for every reference form of it Go's regexp verdict of every rule alone;
@@ -140,12 +141,14 @@ Definition hit_model (es : list (bool * rx)) (forms : list str) : option bool :=
                            | _, _ => None
                            end) (Some false) forms.
 Definition ucase_model_ok (c : ucase) : bool :=
+  uc_started c &&
   forallb (fun o => let '(host, _, yes) := o in
                     match hit_model (uc_entries c) (site_forms (site_of (uc_site c)) host) with
                     | Some a => bool_eqb a yes
                     | None => true
                     end) (uc_obs c).
 Definition ucase_prop_ok (c : ucase) : bool :=
+  uc_started c &&
   forallb (fun o => let '(host, alone_forms, yes) := o in
                     (length alone_forms =? length (ref_forms (site_of (uc_site c)) host))%nat &&
                     forallb (fun al => (length al =? length (uc_entries c))%nat) alone_forms &&
